@@ -18,6 +18,7 @@ POOL = [
     "a .stringz \"hi\"\nlea r0 a\nputs\nhalt\n", "loop add r0 r0 #1\nbrp loop\n", "loop and r0 r0 #0\n", "x1 halt\n",
     "a halt\n.blkw x200\nbr a\n", "a .break\nhalt\n", ".break\na halt\n", "a halt ; comment\n", "é\n", "a é\n",
     "a add r0 r0 #99\n", "BUF .fill #1\nBuf .fill #2\nld r0 buf\nhalt\n", "Lbl halt\nbr lbl\n", "br LBL\nlbl halt\n",
+    "push r0\nhalt\n", "add r0 r0 #1\npop r1\n", "rets\n", "a call a\n", "halt\nPUSH r1\n", "getc\nout\nhalt\n", "puts\n",
     "l1 halt\nl2 halt\nl3 halt\nl4 halt\nl5 halt\nl6 halt\nL1 halt\nbr l1\nbr L1\n", "aa halt\nbb halt\ncc halt\ndd halt\nee halt\nee halt\n", "a halt\nb add r0 r0\n", "", "\n\n", "a trap x25\nb trap x26\n", "b halt\nbr a\n",
 ]
 
@@ -35,7 +36,10 @@ def gen_cases(tier, seed):
     # all ordered pairs with a reset in between (and the same pair without, to exercise the table)
     pairs = list(itertools.product(range(len(pool)), repeat=2))
     if tier == "quick":
-        rnd.shuffle(pairs); pairs = pairs[:1200]
+        rnd.shuffle(pairs)
+        lexfail = [i for i, t in enumerate(pool) if any(w in t.lower() for w in ("push", "pop", "rets", "call", "`", "\"unterminated"))]
+        must = [(i, j) for i in lexfail for j in range(len(POOL))]          # every failing-in-the-lexer predecessor x every pool source
+        pairs = must + [p for p in pairs[:1200] if p not in set(must)]
     for i, j in pairs:
         cases.append(asmgen.asm_case(0, [(1, pool[i]), (1, pool[j])])); tags.append("pair-reset")
     for i, j in pairs[: len(pairs) // 3]:
